@@ -77,6 +77,10 @@ func loadRSA() {
 	}
 }
 
+// RSAFast is the number of RSA keys of at most 3072 bits (indexes 0..RSAFast-1);
+// the remaining ones (4096, 6144, 8192 bits) are slow to sign with.
+const RSAFast = 4
+
 // RSAPoolSize is the number of committed RSA keys.
 func RSAPoolSize() int {
 	mu.Lock()
